@@ -146,6 +146,11 @@ func (s *Sched) loop() int {
 			s.mu.Unlock()
 			return timeAdv
 		}
+		if len(enabled) == 1 {
+			// a forced move is not a decision: it is not recorded (keeps choice lists short)
+			s.resumeLocked(enabled[0])
+			continue
+		}
 		i := len(s.Choices)
 		c := 0
 		if i < len(s.prefix) {
@@ -156,26 +161,18 @@ func (s *Sched) loop() int {
 			}
 		}
 		pi := PointInfo{N: len(enabled), RunEnabled: runEnabled, Devs: s.devs}
-		if e := s.exp; e != nil && !e.NoCache && i >= len(s.prefix) && len(enabled) > 1 {
-			if s.prunedAt < 0 {
-				key := s.stateKey()
-				pi.Key = key
-				left := e.Bound - s.devs
-				if old, ok := e.cache[key]; ok && old >= left {
-					s.prunedAt = i
-					e.CacheHits++
-				} else {
-					e.cache[key] = left
-				}
+		if e := s.exp; e != nil && !e.NoCache && i >= len(s.prefix) && s.prunedAt < 0 {
+			key := s.stateKey()
+			pi.Key = key
+			left := e.Bound - s.devs
+			if old, ok := e.cache[key]; ok && old >= left {
+				s.prunedAt = i
+				e.CacheHits++
+			} else {
+				e.cache[key] = left
 			}
 		}
 		pi.Pruned = s.prunedAt >= 0
-		if len(enabled) == 1 {
-			// a forced move is not a decision: do not record it (keeps choice lists short)
-			t := enabled[0]
-			s.resumeLocked(t)
-			continue
-		}
 		s.Points = append(s.Points, pi)
 		s.Choices = append(s.Choices, c)
 		if c != 0 && runEnabled {
